@@ -245,8 +245,8 @@ def run_cases(rep, tier, seed, prop, impl, model):
     return kdis, ofail
 
 
-def run_abort_cases(rep, tier, seed):
-    """C05, directed: a non-tolerated failure in one line of a group while another line of the same group is in the
+def run_abort_cases(rep, tier, seed, prop="C05"):
+    """C05 (and the records of the aborted line: C04), directed: a non-tolerated failure in one line of a group while another line of the same group is in the
     middle of long *tolerated* actions (which the prompter then aborts).  Whatever the aborted line reports, the
     failure must be reported (exit status != 0) and no later group may start (`failure_stops`)."""
     rng = SplitMix(seed + 505)
@@ -296,9 +296,34 @@ def run_abort_cases(rep, tier, seed):
             problems.append("exit status 0 although the non-tolerated action a.fail failed (while other lines of the group were aborted or had already succeeded)")
         if nmark:
             problems.append("the next group started (a.mark performed %d times) after a non-tolerated failure" % nmark)
-        if problems:
+        if problems and prop == "C05":
             ofail.append({"config": text, "problems": problems, "rc": r["rc"], "stderr": (r["stderr"] or "")[-1200:],
                           "tag": {"kind": "failure-lost-when-concurrent-line-aborted", "exit0": r["rc"] == 0}})
+        if prop == "C04" and not r["timed_out"]:
+            # the records of the line that was aborted: every action that started has its row (an aborted one with a
+            # failure status), rows are in the order of the starts, and nothing is recorded that never started
+            recp = []
+            for actor in sorted(set(e["actor"] for e in ledger)):
+                started = [e for e in ledger if e["actor"] == actor]
+                rows = playgen.parse_actor_csv(r["csv"].get(actor + ".csv", ""))
+                rep.count("abort-plays: actions started", len(started))
+                rep.count("abort-plays: actions aborted", sum(1 for e in started if e["stop"] is None))
+                if [x["action"] for x in rows] != [e["action"] for e in started]:
+                    recp.append("actor %s: the commands started are %s, the recorded actions are %s" % (
+                        actor, [e["action"] + ("" if e["stop"] is not None else "(aborted)") for e in started], [x["action"] for x in rows]))
+                    continue
+                for e, x in zip(started, rows):
+                    if e["stop"] is None and x["status"] == 0:
+                        recp.append("actor %s: %s was aborted and is recorded as a success" % (actor, e["action"]))
+                after = False
+                for e in started:
+                    if after:
+                        recp.append("actor %s: %s started after an earlier action of its line was aborted" % (actor, e["action"]))
+                        break
+                    after = e["stop"] is None
+            if recp:
+                ofail.append({"config": text, "problems": recp, "rc": r["rc"], "ledger": r["ledger"].get("play.ledger", "")[-800:],
+                              "csv": {k: v[-400:] for k, v in r["csv"].items()}, "tag": {"kind": "records-of-an-aborted-line"}})
     return ofail
 
 
@@ -316,8 +341,7 @@ def run_prop(prop, tier, seed):
     impl, model = Impl(), Model()
     ok, info = standard_proof_step(rep, prop, thorough=(tier == "thorough"))
     kdis, ofail = run_cases(rep, tier, seed, prop, impl, model)
-    if prop == "C05":
-        ofail += run_abort_cases(rep, tier, seed)
+    ofail += run_abort_cases(rep, tier, seed, prop)
     rep.obligation("K-%s: generated plays compile and the model accepts them" % prop, "K", not kdis, json.dumps(kdis[:2])[:1500])
     rep.obligation("O-%s: real binary — performed action set, exit status, ordering/barrier/tempo inequalities, recorded vs experienced times" % prop, "O", not ofail, json.dumps(ofail[:2])[:1800])
     if ofail:
